@@ -256,11 +256,11 @@ Section Proofs.
   Proof.
     intros O1. unfold C05Pushdown.left_join.
     change (sigma_all h1 A) with (filter (fun r => holds r h1) A). rewrite flat_map_filter.
-    unfold sigma_all. fold (fun r => holds r h1). rewrite filter_flat_map. apply flat_map_ext. intros a.
+    unfold sigma_all. rewrite filter_flat_map. apply flat_map_ext. intros a. fold (holds a h1).
     assert (Hm : forall l, Forall (fun r => exists b, r = merge tl a b) l ->
-                 filter (fun r => holds r h1) l = if holds a h1 then l else []).
+                 filter (fun r => forallb (fun f => is_true (eval r f)) h1) l = if holds a h1 then l else []).
     { induction l as [|r l IH]; intros Hf; [destruct (holds a h1); reflexivity|].
-      inversion Hf as [|? ? (b & ->) Hf']; subst. cbn [filter]. rewrite (holds_merge_left tl a b h1 O1).
+      inversion Hf as [|? ? (b & ->) Hf']; subst. cbn [filter]. fold (holds (merge tl a b) h1). rewrite (holds_merge_left tl a b h1 O1).
       rewrite (IH Hf'). destruct (holds a h1); reflexivity. }
     destruct (C05Pushdown.matches own tl cond a B) as [|m ms] eqn:E.
     - rewrite (Hm [merge tl a (C05Pushdown.null_row own)]); [reflexivity|]. constructor; [eexists; reflexivity|constructor].
@@ -285,6 +285,9 @@ Section Proofs.
     unfold sigma_all. rewrite filter_filter. apply filter_ext. intros r. apply forallb_app.
   Qed.
 
+  Lemma sigma_all_nil l : sigma_all [] l = l.
+  Proof. unfold sigma_all. induction l as [|r l IH]; [reflexivity|]. cbn in *. rewrite IH. reflexivity. Qed.
+
   Lemma sigma_all_in fs l r : List.In r (sigma_all fs l) <-> List.In r l /\ holds r fs = true.
   Proof. unfold sigma_all. apply filter_In. Qed.
 
@@ -300,6 +303,16 @@ Section Proofs.
   Lemma in_subtract f all h : List.In f (subtract all h) -> List.In f all.
   Proof. unfold subtract. intros H. apply filter_In in H. tauto. Qed.
 
+  Lemma nodup_app {X} (a b : list X) :
+    NoDup (a ++ b) -> NoDup a /\ NoDup b /\ (forall t, List.In t b -> ~ List.In t a).
+  Proof.
+    induction a as [|x a IH]; cbn; intros H.
+    - split; [constructor|]. split; [exact H|]. intros t _ [].
+    - inversion H as [|? ? Hx Hn]; subst. destruct (IH Hn) as (Na & Nb & Hd). split; [|split; [exact Nb|]].
+      + constructor; [|exact Na]. intros Hin. apply Hx. apply in_app_iff. left. exact Hin.
+      + intros t Hb [->|Ha]; [apply Hx; apply in_app_iff; right; exact Hb|exact (Hd t Hb Ha)].
+  Qed.
+
   Theorem push_spec pl : NoDup (tabs pl) -> forall avail,
     let '(pl', h) := push avail pl in
     tabs pl' = tabs pl /\
@@ -310,7 +323,7 @@ Section Proofs.
     induction pl as [t|p c IH|lo p a IHa b IHb|n c IH]; intros ND avail; cbn [C05Pushdown.push].
     - (* table *)
       destruct (filter (C05Pushdown.only_table own t) avail) as [|m ms] eqn:E.
-      + repeat split; try reflexivity. intros f [].
+      + split; [reflexivity|]. split; [reflexivity|]. split; [symmetry; apply sigma_all_nil|intros f []].
       + rewrite <- E. repeat split.
         * apply forallb_forall. intros f Hf. apply filter_In in Hf. destruct Hf as [_ Hf]. apply only_table_over. exact Hf.
         * cbn [C05Pushdown.peval]. apply sigma_join_and.
@@ -329,16 +342,19 @@ Section Proofs.
           intros r Hr. cbn [C05Pushdown.peval] in Hr. rewrite sigma_split in Hr. apply sigma_all_in in Hr.
           destruct Hr as [_ Hr]. unfold holds in Hr. rewrite forallb_forall in Hr. apply Hr. exact Hin.
         - right. intros r Hr. cbn [C05Pushdown.peval] in Hr. apply sigma_In in Hr. apply He. tauto. }
-      destruct (subtract (split_conj p) h) as [|x rest] eqn:Es.
+      destruct (subtract (split_conj p) h) as [|x0 rest] eqn:Es.
       + cbn [C05Pushdown.tabs C05Pushdown.peval]. repeat split; try assumption.
-        rewrite <- Hsem. unfold sigma_all. cbn. symmetry. clear. induction (peval c'); [reflexivity|]. cbn. congruence.
-      + cbn [C05Pushdown.tabs C05Pushdown.peval]. repeat split; try assumption.
-        rewrite sigma_join_and. exact Hsem.
+        rewrite <- Hsem. symmetry. apply sigma_all_nil.
+      + assert (Hm : forall x c'', c' = PFilter x c'' ->
+                  sigma (join_and ((x0 :: rest) ++ [x])) (peval c'') = sigma_all (x0 :: rest) (peval c')).
+        { intros x c'' ->. cbn [C05Pushdown.peval]. rewrite sigma_join_and. unfold sigma_all, sigma. rewrite filter_filter.
+          apply filter_ext. intros r. fold (holds r ((x0 :: rest) ++ [x])). fold (holds r (x0 :: rest)).
+          rewrite holds_app. cbn [holds forallb]. rewrite andb_true_r. apply andb_comm. }
+        destruct c' as [t'|x c''|lo' p' a' b'|n' c''] eqn:Ec'; cbn [C05Pushdown.tabs C05Pushdown.peval] in *;
+          repeat split; try assumption; try (rewrite sigma_join_and; exact Hsem).
+        rewrite (Hm x c'' eq_refl). exact Hsem.
     - (* join *)
-      cbn [C05Pushdown.tabs] in ND. pose proof (NoDup_app_remove_r _ _ ND) as NDa. pose proof (NoDup_app_remove_l _ _ ND) as NDb.
-      assert (Hd : forall t, List.In t (tabs b) -> ~ List.In t (tabs a)).
-      { intros t Hb Ha. clear - ND Ha Hb. induction (tabs a) as [|x l IH]; [contradiction|].
-        inversion ND; subst. destruct Ha as [->|Ha]; [apply H1; apply in_app_iff; right; exact Hb|]. apply IH; assumption. }
+      cbn [C05Pushdown.tabs] in ND. destruct (nodup_app _ _ ND) as (NDa & NDb & Hd).
       destruct lo.
       + (* left outer join *)
         specialize (IHa NDa avail). destruct (push avail a) as [a' h1]. destruct IHa as (Ta & Oa & Ea & Sa).
@@ -392,7 +408,7 @@ Section Proofs.
       specialize (IH ND []). destruct (push [] c) as [c' h]. destruct IH as (T & O & E & S).
       cbn [C05Pushdown.tabs C05Pushdown.peval]. repeat split; try assumption; try reflexivity.
       + rewrite E, (sigma_all_enforced h (peval c)).
-        * unfold sigma_all. cbn. clear. induction (firstn n (peval c)); [reflexivity|]. cbn. congruence.
+        * symmetry. apply sigma_all_nil.
         * intros f Hf r Hr. destruct (S f Hf) as [[]|He]. apply He. exact Hr.
       + intros f [].
   Qed.
